@@ -180,6 +180,35 @@ pub fn drive(seed: u64, tier: &str, stim: Option<&str>, out: &mut Out) {
             }
         }
     }
+    // 1a. lookups by coordinates at the extreme zooms, in memory and after a reopen, through both APIs
+    {
+        use pmtiles2::util::tile_id;
+        let coords: Vec<(u8, u64, u64)> = vec![(0, 0, 0), (1, 1, 0), (15, 20_000, 7), (30, (1 << 30) - 1, 5), (31, 0, 0), (31, (1 << 31) - 1, 0),
+                                               (31, 12_345, (1 << 31) - 1), (31, 1 << 30, 1 << 30)];
+        let tiles: Vec<(u64, Vec<u8>)> = coords.iter().map(|(z, x, y)| (tile_id(*z, *x, *y), vec![*z, (*x % 251) as u8, (*y % 241) as u8, 9])).collect();
+        let set = Settings::random(&mut rng, 2);
+        let mut views = Vec::new();
+        for api in [0u8, 1] {
+            let mut ops = vec![Op::New { tt: set.tt, tc: set.tc, api }, Op::Set(set.clone()), Op::Bulk(tiles.clone())];
+            for (z, x, y) in &coords {
+                ops.push(Op::GetZxy { z: *z, x: *x, y: *y });
+            }
+            ops.extend([Op::Save, Op::Reopen { api }]);
+            for (z, x, y) in &coords {
+                ops.push(Op::GetZxy { z: *z, x: *x, y: *y });
+                ops.push(Op::GetZxy { z: *z, x: *x, y: y ^ 1 });
+            }
+            let obs = exec(&ops, false);
+            let looks: Vec<Value> = obs
+                .iter()
+                .filter(|o| matches!(o.op, Op::GetZxy { .. }))
+                .map(|o| json!([o.res, o.content.as_ref().map_or(0, |c| ctx.toks.tok(c))]))
+                .collect();
+            views.push(json!({"res": "ok", "lookups": looks}));
+        }
+        out.emit(json!({"ev": "Twin", "what": "coordinate_lookups", "none_codec": false, "bytes_sync": 0, "bytes_async": 0, "views": views}));
+        n += 1;
+    }
     // 1b. metadata beyond 1 MiB (decompressed), written and read through both APIs
     for ic in [1u8, 2] {
         let mut set = Settings::random(&mut rng, ic);
